@@ -70,4 +70,8 @@ class appendix(Command):
 
     def invoke(self, tex):
         self.ownerDocument.context.counters['chapter'].setcounter(0)
-        self.ownerDocument.context['thechapter'] = type(self).thechapter
+        context = self.ownerDocument.context
+        # Like \gdef: replace a \renewcommand{\thechapter} made at an inner group level
+        for c in context.contexts[1:]:
+            c.pop('thechapter', None)
+        context['thechapter'] = type(self).thechapter
